@@ -298,7 +298,7 @@ def _split_stmts(block: str):
             depth -= 1
             if c == '}' and depth == 0:
                 head = block[start:i].lstrip()
-                blocklike = re.match(r"(if|match|for|while|loop|unsafe|\{|'\w+\s*:)", head) is not None
+                blocklike = re.match(r"(if|match|for|while|loop|unsafe|proof|\{|'\w+\s*:)", head) is not None
                 rest = block[i + 1:].lstrip()
                 if blocklike and not re.match(r'(else\b|\.|\?|;|\)|,|==|&&|\|\|)', rest):
                     out.append(block[start:i + 1])
